@@ -1,4 +1,5 @@
 import MjProof.Num
+import MjProof.Gen.Kernels
 /-
 Executable model of the kinetic-energy computation of the engine (C08):
 
@@ -70,5 +71,127 @@ def denseEntry {n : Nat} (rows : Fin n → SymRow α n) (i j : Fin n) : α :=
     before either side runs) -/
 def wf {n : Nat} (rows : Fin n → SymRow α n) : Bool :=
   (List.finRange n).all (fun i => (rows i).offs.all (fun p => decide (p.1 < i)))
+
+/-! ### potential energy and spring forces
+
+  src/engine/engine_sensor.c  : mj_energyPos       energy[0] = gravity term + joint springs + tendon springs
+  src/engine/engine_passive.c : mj_springdamper    qfrc_spring = joint springs + tendon springs   (called by mj_passive)
+
+Both functions walk the joints in order and SKIP a joint when `stiffness == 0 && mju_isZero(poly, mjNPOLY)`; otherwise
+they dispatch on the joint type.  The displacement of a slide/hinge joint is `qpos - qpos_spring`; a ball joint (and
+each of the two parts of a free joint) contributes through the norm `r` of a 3-vector `dif` (`mju_sub3` / `mju_subQuat`,
+computed by the engine's own functions on the implementation side and handed to the model as input).  The scalar laws
+are the c2lean-generated `Gen.c08_polyForce` / `Gen.c08_polyPotential` (mjNPOLY = 2).
+Scope of the model: no sleeping (mjENBL_SLEEP off), no flex, no damping on tendons (conservative models); the
+implementation side refuses to print an op line otherwise. -/
+
+/-- `mju_isZero(poly, 2)` -/
+def polyIsZero (p0 p1 : α) : Bool := MjNum.beq p0 zero && MjNum.beq p1 zero
+
+/-- the skip test of both joint loops: `stiffness == 0 && mju_isZero(poly, mjNPOLY)` -/
+def noSpring (k p0 p1 : α) : Bool := MjNum.beq k zero && polyIsZero p0 p1
+
+/-- one spring displacement of a joint -/
+inductive Disp (α : Type) where
+  /-- slide / hinge: `x = qpos[padr] - qpos_spring[padr]` -/
+  | scalar (q qspring : α)
+  /-- ball, and each of the translational / rotational parts of a free joint.  The two engine loops compute the
+      displacement vector separately: `mj_springdamper` from a re-normalised copy of the quaternion (`dif`, `r =
+      mju_norm3(dif)`), `mj_energyPos` from `qpos` as it is (`re` = the norm of its own `dif`; equal over the reals for
+      a unit quaternion, possibly an ulp apart in floating point) -/
+  | radial (re r d0 d1 d2 : α)
+
+def Disp.x : Disp α → α
+  | .scalar q qs => q - qs
+  | .radial re _ _ _ _ => re
+
+structure JointSpring (α : Type) where
+  k : α
+  p0 : α
+  p1 : α
+  /-- `jnt_dofadr` -/
+  dadr : Nat
+  /-- hinge/slide: one `scalar`; ball: one `radial`; free: two `radial` (translation, then rotation) -/
+  disps : List (Disp α)
+
+structure TendonSpring (α : Type) where
+  k : α
+  p0 : α
+  p1 : α
+  length : α
+  lower : α
+  upper : α
+  /-- the sparse row of `ten_J`: (dof, value) in storage order -/
+  J : List (Nat × α)
+
+/-- `x = (length > upper) ? length - upper : (length < lower) ? length - lower : 0` -/
+def TendonSpring.x (t : TendonSpring α) : α :=
+  if t.upper < t.length then t.length - t.upper else if t.length < t.lower then t.length - t.lower else zero
+
+structure Body (α : Type) where
+  mass : α
+  x0 : α
+  x1 : α
+  x2 : α
+
+/-- what `mj_energyPos` / `mj_springdamper` read -/
+structure PotIn (α : Type) where
+  /-- `!mjDISABLED(mjDSBL_GRAVITY)` -/
+  gravityOn : Bool
+  g0 : α
+  g1 : α
+  g2 : α
+  /-- bodies `1 .. nbody-1`: mass and `xipos` -/
+  bodies : List (Body α)
+  /-- `!mjDISABLED(mjDSBL_SPRING)` -/
+  springOn : Bool
+  joints : List (JointSpring α)
+  tendons : List (TendonSpring α)
+
+/-- the joint loop body of `mj_energyPos` -/
+def jointPotential (e : α) (j : JointSpring α) : α :=
+  if noSpring j.k j.p0 j.p1 then e
+  else j.disps.foldl (fun e d => e + Gen.c08_polyPotential j.k j.p0 j.p1 d.x) e
+
+/-- `mj_energyPos`: `energy[0]` -/
+def energyPos (s : PotIn α) : α :=
+  let e0 : α := if s.gravityOn then
+      s.bodies.foldl (fun e b => e - b.mass * (s.g0 * b.x0 + s.g1 * b.x1 + s.g2 * b.x2)) zero
+    else zero
+  let e1 : α := if s.springOn then s.joints.foldl jointPotential e0 else e0
+  if s.springOn then s.tendons.foldl (fun e t => e + Gen.c08_polyPotential t.k t.p0 t.p1 t.x) e1 else e1
+
+/-- `f[i] = v` -/
+def upd (f : Nat → α) (i : Nat) (v : α) : Nat → α := fun m => if m = i then v else f m
+
+/-- the `switch` of the joint loop of `mj_springdamper`: slide/hinge ASSIGN `qfrc_spring[dadr] = -x * polyForce(x)`,
+    ball / free parts do `mji_addToScl3(qfrc_spring + dadr, dif, -polyForce(r))` and advance `dadr` by 3 -/
+def dispForce (k p0 p1 : α) : (Nat → α) → Nat → List (Disp α) → (Nat → α)
+  | f, _, [] => f
+  | f, a, .scalar q qs :: rest =>
+      dispForce k p0 p1 (upd f a ((-(q - qs)) * Gen.c08_polyForce k p0 p1 (q - qs))) (a + 1) rest
+  | f, a, .radial _ r d0 d1 d2 :: rest =>
+      let kf : α := -(Gen.c08_polyForce k p0 p1 r)
+      let f1 := upd f a (f a + d0 * kf)
+      let f2 := upd f1 (a + 1) (f1 (a + 1) + d1 * kf)
+      let f3 := upd f2 (a + 2) (f2 (a + 2) + d2 * kf)
+      dispForce k p0 p1 f3 (a + 3) rest
+
+def jointForce (f : Nat → α) (j : JointSpring α) : Nat → α :=
+  if noSpring j.k j.p0 j.p1 then f else dispForce j.k j.p0 j.p1 f j.dadr j.disps
+
+/-- the tendon loop body of `mj_springdamper` (no damper): skipped when there is no spring; the force
+    `-x * polyForce(x)` is spread over the tendon Jacobian row only `if (frc_spring || frc_damper)` -/
+def tendonForce (f : Nat → α) (t : TendonSpring α) : Nat → α :=
+  if noSpring t.k t.p0 t.p1 then f else
+  let x := t.x
+  let frc : α := (-x) * Gen.c08_polyForce t.k t.p0 t.p1 x
+  if MjNum.beq frc zero then f else t.J.foldl (fun f cj => upd f cj.1 (f cj.1 + cj.2 * frc)) f
+
+/-- `qfrc_spring` as a function of the dof index (cleared by `mj_passive`, then `mj_springdamper`) -/
+def springForceFn (s : PotIn α) : Nat → α :=
+  if s.springOn then s.tendons.foldl tendonForce (s.joints.foldl jointForce (fun _ => zero)) else fun _ => zero
+
+def springForce (s : PotIn α) (nv : Nat) : List α := (List.range nv).map (springForceFn s)
 
 end MjProof.Energy
